@@ -2,7 +2,7 @@
 import copy
 import json
 
-from .. import common, es
+from .. import common, es, trees
 from . import c07
 
 LEVEL = "proof"
@@ -157,6 +157,8 @@ def run(ctx):
     before = class_state(I)
     results = c07.run_cases(ctx, cs)
     builders = {}
+    hist = trees.SharedObjects(ctx, ctx.rng, "ElasticsearchQueryBuilder")
+    reqs_seen = []
     for schema, cfg, d, r, raw in results:
         ok = "ok" in r
         if not ok:
@@ -195,6 +197,10 @@ def run(ctx):
         r3, _ = es.build(cfg, common.load_tree(d))
         if not (r1 == r2 == r3 == r):
             ctx.fail("the result depends on the builder's history (same builder twice / fresh builder differ)", info)
+        if len(reqs_seen) % 4 == 0:
+            hist.check(key, lambda: I.es.ElasticsearchQueryBuilder(**cfg),
+                       lambda bb, t: es.build(cfg, t, bb)[0], d, info)
+        reqs_seen.append(1)
     after = class_state(I)
     if after != before:
         ctx.fail("a call modified class-level attributes of the E-classes", {"before": before, "after": after})
